@@ -382,7 +382,13 @@ def _ceil(it, a, kw, node):
     if isinstance(v, Term):
         # ceil(x / y) for integer terms: the one shape the package uses
         if v.op == "truediv":
-            return Term("ceildiv", v.args, "int")
+            if isinstance(v.args[0], int) and v.args[0] == 0:
+                return 0            # ceil(0 / b) for a positive size b
+            t = Term("ceildiv", v.args, "int")
+            if t in it.int_bindings:          # case split chosen by the rule
+                it.emit("case_split", term=t, value=it.int_bindings[t], node=node)
+                return it.int_bindings[t]
+            return t
         raise AnalysisError(f"{it.where(node)}: ceil of {v!r}")
     return math.ceil(v)
 
